@@ -917,3 +917,88 @@ Proof.
   - exact (var_not_result _ _ (eq_sym E2)).
   - apply result_name_inj in E2. lia.
 Qed.
+
+(* ================= the statements used by props/C18.v ================= *)
+Definition seg_scoped (g : seg) : Prop :=
+  sg_first g <= sg_next g /\
+  seg_assigns g = seq (sg_first g) (sg_next g - sg_first g) /\
+  (forall pre st post, seg_body g = pre ++ st :: post ->
+     forall j, In j (vars_of (stmt_atoms st)) -> In j (flat_map stmt_assigns pre)) /\
+  (forall j, In j (vars_of (flat_map stmt_atoms (seg_body g) ++ heap_atoms (sg_state g))) ->
+     sg_first g <= j < sg_next g) /\
+  (forall x, In x (seg_binds g) -> is_reserved x = true ->
+     (exists j, x = var_name j /\ sg_first g <= j < sg_next g) \/ x = result_name (sg_index g)) /\
+  (forall x, In x (seg_reads g) -> is_reserved x = true ->
+     exists j, x = var_name j /\ sg_first g <= j < sg_next g).
+
+Lemma seg_inv_scoped : forall g, seg_inv g -> seg_scoped g.
+Proof.
+  intros g H. destruct (seg_assigns_seq g H) as [A B]. unfold seg_scoped.
+  split; [exact A|]. split; [exact B|].
+  split; [intros pre st post; apply seg_reads_earlier; exact H|].
+  split; [apply seg_vars_in_range; exact H|].
+  split; [intros x; apply seg_binds_reserved; exact H|intros x; apply seg_reads_reserved; exact H].
+Qed.
+
+Lemma decompile_disjoint : forall ps segs st,
+  Forall (fun p => reserved_free p = true) ps ->
+  cli_decompile ps = (segs, st) ->
+  seg_chain 0 0 segs /\
+  (forall g, In g segs -> seg_scoped g) /\
+  (forall l1 g1 l2 g2 l3, segs = l1 ++ g1 :: l2 ++ g2 :: l3 ->
+     sg_next g1 <= sg_first g2 /\ sg_index g1 < sg_index g2 /\
+     forall x, In x (seg_binds g1 ++ seg_reads g1) -> In x (seg_binds g2 ++ seg_reads g2) ->
+               is_reserved x = false) /\
+  (st = Exit 0 /\ List.length segs = List.length ps /\
+     Forall2 (fun g p => run_from p (fk_init (sg_first g)) = Ok (sg_state g)) segs ps
+   \/ exists e, st = Raised e /\ List.length segs < List.length ps /\
+        Forall2 (fun g p => run_from p (fk_init (sg_first g)) = Ok (sg_state g))
+                segs (firstn (List.length segs) ps)).
+Proof.
+  intros ps segs st F H. destruct (decompile_from_spec _ _ _ _ _ F H) as (C & Fi & _ & Alt).
+  split; [exact C|]. split.
+  { intros g Ig. apply seg_inv_scoped. exact (proj1 (Forall_forall _ _) Fi g Ig). }
+  split; [|exact Alt].
+  intros l1 g1 l2 g2 l3 E. destruct (segs_ordered _ _ _ _ _ _ _ _ C Fi E) as [A B].
+  split; [exact A|]. split; [exact B|]. exact (segs_no_reuse _ _ _ _ _ _ _ _ C Fi E).
+Qed.
+
+Lemma run_ends_stopped : forall p s s1, run_from (p ++ [OStop]) s = Ok s1 -> stopped s1 = true.
+Proof.
+  induction p as [|o p IH]; intros s s1 H.
+  - change ([] ++ [OStop]) with [OStop] in H. cbn [run_from] in H.
+    destruct (stopped s) eqn:St; [inversion H; subst; exact St|].
+    destruct (step OStop s) as [s2|] eqn:S; cbn [bind] in H; [|discriminate]. inversion H; subst.
+    apply (step_stop_body _ _ S).
+  - rewrite <- app_comm_cons in H. cbn [run_from] in H.
+    destruct (stopped s) eqn:St; [inversion H; subst; exact St|].
+    destruct (step o s) as [s2|] eqn:S; cbn [bind] in H; [|discriminate]. eapply IH. exact H.
+Qed.
+
+(* a program that ends in STOP (every parsed pickle does) binds result<i> in its last statement *)
+Lemma decompile_from_result_bound : forall ps i v segs st,
+  cli_decompile_from i v ps = (segs, st) ->
+  Forall (fun p => exists q, p = q ++ [OStop]) ps ->
+  forall g, In g segs ->
+    (exists e r, seg_body g = r ++ [SResult e]) /\ In (result_name (sg_index g)) (seg_binds g).
+Proof.
+  induction ps as [|p ps IH]; intros i v segs st H F g Ig; cbn [cli_decompile_from] in H.
+  - inversion H; subst. destruct Ig.
+  - inversion F as [|? ? (q & Eq) F']; subst.
+    destruct (run_from (q ++ [OStop]) (fk_init v)) as [s|e] eqn:Rn; [|inversion H; subst; destruct Ig].
+    destruct (cli_decompile_from (S i) (ctr s) ps) as [l st'] eqn:D. inversion H; subst.
+    destruct Ig as [E|Ig]; [subst g|exact (IH _ _ _ _ D F' g Ig)].
+    pose proof (run_ends_stopped _ _ _ Rn) as T.
+    assert (G0 : stopped (fk_init v) = true -> exists e r, body (fk_init v) = SResult e :: r)
+      by (cbn; discriminate).
+    destruct (run_from_result _ _ _ Rn G0 T) as (e & r & Eb).
+    unfold seg_binds, seg_body. cbn [sg_state sg_index]. rewrite Eb. cbn [List.rev].
+    split; [eauto|]. rewrite flat_map_app. apply in_or_app. right. left. reflexivity.
+Qed.
+
+Lemma decompile_result_bound : forall ps segs st,
+  cli_decompile ps = (segs, st) ->
+  Forall (fun p => exists q, p = q ++ [OStop]) ps ->
+  forall g, In g segs ->
+    (exists e r, seg_body g = r ++ [SResult e]) /\ In (result_name (sg_index g)) (seg_binds g).
+Proof. intros ps segs st. apply decompile_from_result_bound. Qed.
